@@ -51,7 +51,7 @@ pub fn run(args: &Args) {
         report.part("replay", 1, 1, json!({}));
         report.finish(args)
     }
-    let use_ids: Vec<u8> = if thorough { (0..corp.len() as u8).collect() } else { vec![0, 1, 2, 4, 8] };
+    let use_ids: Vec<u8> = if thorough { (0..corp.len() as u8).collect() } else { vec![0, 1, 2, 3, 4, 7, 8] };
     let mut all: Vec<Mutant> = vec![];
     let mut validated = 0u64;
     let mut sizes = vec![];
